@@ -1060,13 +1060,18 @@ func urlValueNotEchoed(c *Ctx, ep *EmittedPkg, rid string) {
 		n := 0
 		bad := ""
 		var bpos token.Pos
+		// every text the binder formats (the violation's description, whether it is written into the literal here or handed
+		// to a helper that builds the violation)
 		ast.Inspect(fd.Body, func(nd ast.Node) bool {
-			kv, ok := nd.(*ast.KeyValueExpr)
-			if !ok || types.ExprString(kv.Key) != "Description" {
+			root, ok := nd.(*ast.CallExpr)
+			if !ok {
+				return true
+			}
+			if cal := ep.CalleeOf(root); cal == nil || cal.Pkg() == nil || cal.Pkg().Path() != "fmt" || !strings.HasSuffix(cal.Name(), "f") {
 				return true
 			}
 			n++
-			ast.Inspect(kv.Value, func(m ast.Node) bool {
+			ast.Inspect(root, func(m ast.Node) bool {
 				call, ok := m.(*ast.CallExpr)
 				if !ok || len(call.Args) < 2 {
 					return true
